@@ -221,6 +221,13 @@ func (v *Verifier) prescanBoxes(fr *Frame, st *State, fi *FuncInfo) {
 		if !isVar || !fr.boxed[obj] {
 			continue
 		}
+		if av, isArr := st.vals[cell].(ArrVal); isArr {
+			// by-value array parameter (or receiver) that the callee slices: box the copy
+			ref := v.freshRef(st)
+			st.vals[cell] = BoxedArr{Sh: av.Sh, Ref: ref}
+			v.eng.heapSetRows(st, av.Sh.Elem, ref, av.L)
+			continue
+		}
 		pv, ok := st.vals[cell].(PtrVal)
 		if !ok || pv.Loc == nil {
 			continue
@@ -464,6 +471,30 @@ func (v *Verifier) intrinsic(fr *Frame, st *State, full string, fn *types.Func, 
 		st.assume(v.iLe(n, p.Len))
 		res := fn.Type().(*types.Signature).Results()
 		return TupleVal{[]Val{v.intVal(n), OpaqueVal{Sh: v.eng.shapeOf(res.At(1).Type()), ID: c.Fresh("err", IntSort), Nil: c.Fresh("read$ok", BoolSort)}}}, true
+	case "bytes.Equal":
+		// len(a) == len(b) && forall k < len(a): a[k] == b[k]
+		use()
+		a, b := args[0].(SliceVal), args[1].(SliceVal)
+		var same *Term
+		if a.Len.IsConst() && a.Len.Val.IsInt64() && a.Len.Val.Int64() <= 64 {
+			parts := []*Term{}
+			for k := int64(0); k < a.Len.Val.Int64(); k++ {
+				parts = append(parts, c.Eq(
+					v.eng.heapReadElem(st, byteSh, a.Ref, v.iAdd(a.Off, v.idxConst(k))).(Scalar).T,
+					v.eng.heapReadElem(st, byteSh, b.Ref, v.iAdd(b.Off, v.idxConst(k))).(Scalar).T))
+			}
+			same = c.And(parts...)
+		} else {
+			sort := BVSort(64)
+			if v.eng.IntIdx() {
+				sort = IntSort
+			}
+			k := c.Bound("k", sort)
+			same = c.Forall([]*Term{k}, c.Implies(v.inRange(k, a.Len), c.Eq(
+				v.eng.heapReadElem(st, byteSh, a.Ref, v.iAdd(a.Off, k)).(Scalar).T,
+				v.eng.heapReadElem(st, byteSh, b.Ref, v.iAdd(b.Off, k)).(Scalar).T)))
+		}
+		return Scalar{c.And(c.Eq(a.Len, b.Len), same), types.Typ[types.Bool]}, true
 	case "(io.Closer).Close":
 		use()
 		res := fn.Type().(*types.Signature).Results()
